@@ -106,6 +106,8 @@ class Ctx(object):
             return FAILED
 
     def set_backend(self, compiled):
+        if compiled and not self.shim.ok:
+            self.notes["compiled_case_run_on_fallback:shim_unavailable"] += 1
         self.shim.set(bool(compiled))
 
 
@@ -708,8 +710,12 @@ def _main(mod, pid, args, shim, t0):
         cov["exhaustive_domain"] = "; ".join(p.domain(tier) for p in enum_phases)
     if tier == "thorough" and os.environ.get("VERIF_NO_REACH") != "1":
         cov["line_reach"] = _reach(pid, mod)
+    assumptions = list(mod.ASSUMPTIONS)
+    if not shim.ok:
+        assumptions.append("THIS RUN: the .pyx kernels could not be transliterated (%s); "
+                           "'compiled' cases ran on the pure-Python fallback" % shim.error)
     ev = dict(property_id=pid, tier=tier, seed=seed, level="exploration",
-              coverage=cov, assumptions=list(mod.ASSUMPTIONS), wall_s=round(wall, 2),
+              coverage=cov, assumptions=assumptions, wall_s=round(wall, 2),
               violations=len(found))
     os.makedirs(os.path.join(env.VERIF_DIR, "evidence"), exist_ok=True)
     with open(os.path.join(env.VERIF_DIR, "evidence", pid + ".json"), "w") as f:
